@@ -100,8 +100,9 @@ abbrev QuantReq := List (Nat × Nat)
 
 def findAtt (g : Geometry) (uid : Nat) : Option Attribute := g.atts.find? (·.uniqueId == uid)
 
-/-- descriptors, declared transforms and the per-point expected / decoded tuples -/
-def check (cls : MethodClass) (req : QuantReq) (g g' gs : Geometry) : String := Id.run do
+/-- the diagnosis: the same relation as `checkCore`, evaluated imperatively and explaining the first
+    difference found (used by `check` only when `checkCore` rejects) -/
+def checkDiag (cls : MethodClass) (req : QuantReq) (g g' gs : Geometry) : String := Id.run do
   if g.atts.length != g'.atts.length then return s!"violation: {g'.atts.length} attributes decoded, {g.atts.length} encoded"
   -- unique ids must be distinct for matching by id to make sense
   let uids := g.atts.map (·.uniqueId)
@@ -175,6 +176,93 @@ def check (cls : MethodClass) (req : QuantReq) (g g' gs : Geometry) : String := 
     if !subMultiset req d then return s!"violation: a non-degenerate input triangle is missing ({g'.faces.length} faces decoded, {nondeg.length} non-degenerate of {g.faces.length} encoded)"
     if !subMultiset d all then return s!"violation: a decoded triangle is not an input triangle ({g'.faces.length} faces decoded, {g.faces.length} encoded)"
     return "ok"
+
+/-! ### the relation RoundTripOK as a Boolean function (`checkCore`) -/
+
+/-- one input attribute matched (by unique id) with its decoded counterpart and the transform the
+    stream declares for it -/
+structure Matched where
+  orig : AttView
+  dec : AttView
+  tr : TransformData
+
+/-- declared transform vs. requested quantization: a requested quantization must be declared with
+    the requested bit count, an attribute that was not to be quantized must not carry a transform -/
+def transformOk : TransformData → Option Nat → Bool
+  | .none, some _ => false
+  | .quantization bits _ _, some b => bits == (b : Int)
+  | .octahedron bits, some b => bits == (b : Int)
+  | .none, none => true
+  | _, none => false
+
+/-- the attribute of the transform-skipped decode that corresponds to unique id `uid` of the ordinary
+    decode (matched by attribute index) -/
+def skipOf (g' gs : Geometry) (uid : Nat) : Option Attribute :=
+  match g'.atts.findIdx? (·.uniqueId == uid) with
+  | some i => gs.atts[i]?
+  | none => none
+
+def matchOne (req : QuantReq) (g' gs : Geometry) (a : Attribute) : Option Matched :=
+  match findAtt g' a.uniqueId, skipOf g' gs a.uniqueId with
+  | some d, some s =>
+    if d.attType != a.attType || d.dataType != a.dataType || d.numComponents != a.numComponents ||
+        d.normalized != a.normalized then none
+    else if !transformOk s.transform (req.lookup a.uniqueId) then none
+    else some ⟨view a, view d, s.transform⟩
+  | _, _ => none
+
+def collect {α : Type} : List (Option α) → Option (List α)
+  | [] => some []
+  | none :: _ => none
+  | some a :: rest =>
+    match collect rest with
+    | none => none
+    | some as => some (a :: as)
+
+/-- expected values of point `p`: per attribute a separator and the declared transform applied to the
+    point's original value row -/
+def expTupleL (ms : List Matched) (p : Nat) : List Nat :=
+  ms.flatMap fun m => [2000000] ++ expectedRow m.tr (m.orig.pointRow p)
+
+/-- decoded values of point `p` -/
+def decTupleL (ms : List Matched) (p : Nat) : List Nat :=
+  ms.flatMap fun m => [2000000] ++ m.dec.pointRow p
+
+/-- **RoundTripOK** (see the header of this file) as a Boolean function of the input `g`, the ordinary
+    decode `g'` and the transform-skipped decode `gs`.  Inputs with duplicate unique ids are not
+    accepted (matching by id is meaningless for them). -/
+def checkCore (cls : MethodClass) (req : QuantReq) (g g' gs : Geometry) : Bool :=
+  g.atts.length == g'.atts.length &&
+  (let uids := g.atts.map (·.uniqueId); uids.eraseDups.length == uids.length) &&
+  match collect (g.atts.map (matchOne req g' gs)) with
+  | none => false
+  | some ms =>
+    match cls with
+    | .sequential =>
+      g.numPoints == g'.numPoints && g.faces == g'.faces &&
+        (List.range g.numPoints).all fun p => expTupleL ms p == decTupleL ms p
+    | .kdTree =>
+      g.numPoints == g'.numPoints &&
+        sortRows ((List.range g.numPoints).map (expTupleL ms)) ==
+          sortRows ((List.range g'.numPoints).map (decTupleL ms))
+    | .edgebreaker =>
+      let pos := g.atts.find? (·.attType == 0)
+      let pidx := fun (p : Nat) => match pos with
+        | some a => valueIndex a (a.map.map List.toArray) p
+        | none => p
+      let nondeg := g.faces.filter fun (a, b, c) => pidx a != pidx b && pidx b != pidx c && pidx a != pidx c
+      let all := sortRows (g.faces.map fun (a, b, c) => canonTri (expTupleL ms a) (expTupleL ms b) (expTupleL ms c))
+      let reqT := sortRows (nondeg.map fun (a, b, c) => canonTri (expTupleL ms a) (expTupleL ms b) (expTupleL ms c))
+      let d := sortRows (g'.faces.map fun (a, b, c) => canonTri (decTupleL ms a) (decTupleL ms b) (decTupleL ms c))
+      subMultiset reqT d && subMultiset d all
+
+/-- the check evaluated by the driver: `"ok"` exactly when `checkCore` accepts
+    (`DracoProofs.SpecCheck.check_ok_iff`), otherwise the diagnosis -/
+def check (cls : MethodClass) (req : QuantReq) (g g' gs : Geometry) : String :=
+  if checkCore cls req g g' gs then "ok"
+  else
+    let d := checkDiag cls req g g' gs
+    if d == "ok" then "violation: RoundTripOK (checkCore) rejects the decoded geometry" else d
 
 /-- C10: applying the described transform to the values exposed by the skipped decode reproduces
     the ordinary decode bit for bit; untransformed attributes and connectivity are identical.
